@@ -188,6 +188,23 @@ class Recorder:
             ro = self.run_ord.get(doc.get("run_start"), 0)
             self.ev("doc", name, "", "", 0, ro)
 
+    def tmp_consumer(self):
+        """a document consumer for Msg('subscribe'): logs every document that reaches it (`tdoc`: name, run ordinal; one record per
+        row of an event page, like `doc`)"""
+        def consumer(name, doc):
+            if name == "start":
+                ro = self.run_ord.get(doc["uid"], 0)
+            elif name in ("event", "event_page", "stream_datum"):
+                ro = self.desc.get(doc["descriptor"], ("?", 0))[1]
+            else:
+                ro = self.run_ord.get(doc.get("run_start"), 0)
+            if name == "event_page":
+                for _ in doc["seq_num"]:
+                    self.ev("tdoc", "event", "", "", 0, ro)
+            else:
+                self.ev("tdoc", name, "", "", 0, ro)
+        return consumer
+
     def attach(self, RE):
         RE.msg_hook = self.msg_hook
         RE.state_hook = self.state_hook
